@@ -166,7 +166,7 @@ class Config(
         """
         cfg = cls()
 
-        cfg.update(user_dict)
+        cfg.update(copy.deepcopy(user_dict))
 
         return cfg
 
